@@ -387,6 +387,50 @@ func (e *Engine) scalarNodeFor(n *ynode) *Value {
 	return cell
 }
 
+// treeNodeFor builds the engine-level yaml.Node of a non-scalar subtree with symbolic leaves
+// (kind and content only; Decode on it is answered from the subtree itself).
+func (e *Engine) treeNodeFor(n *ynode) *Value {
+	if n.kind == 1 {
+		return e.scalarNodeFor(n)
+	}
+	nt := e.yamlNodeType()
+	st := under(nt).(*types.Struct)
+	sv := e.zero(nt).(structV)
+	var content []Value
+	kind := yaml.ScalarNode
+	tag := "!!null"
+	switch n.kind {
+	case 2:
+		kind, tag = yaml.SequenceNode, "!!seq"
+		for _, c := range n.items {
+			content = append(content, e.treeNodeFor(c))
+		}
+	case 3:
+		kind, tag = yaml.MappingNode, "!!map"
+		for i, c := range n.items {
+			content = append(content, e.scalarNodeFor(&ynode{kind: 1, tag: "!!str", val: n.keys[i], valT: types.Typ[types.String]}), e.treeNodeFor(c))
+		}
+	}
+	for i := 0; i < st.NumFields(); i++ {
+		switch st.Field(i).Name() {
+		case "Kind":
+			sv[i] = uint64(kind)
+		case "Tag":
+			sv[i] = tag
+		case "Value":
+			if n.kind == 0 {
+				sv[i] = "null"
+			}
+		case "Content":
+			sv[i] = sliceV{a: content}
+		}
+	}
+	cell := new(Value)
+	*cell = sv
+	e.yside().trees[cell] = n
+	return cell
+}
+
 func (e *Engine) ydecodeTree(n *ynode, t types.Type, dst *Value, errs *[]string) Value {
 	if n.concrete() {
 		return e.ydecode(n.native(), t, dst, errs)
@@ -401,10 +445,13 @@ func (e *Engine) ydecodeTree(n *ynode, t types.Type, dst *Value, errs *[]string)
 		return e.ydecodeTree(n, pt.Elem(), cell, errs)
 	}
 	if m := e.hasUnmarshalYAML(t); m != nil {
-		if n.kind != 1 {
-			e.abort(abortEngine, "yaml: UnmarshalYAML on a non-scalar symbolic subtree")
+		var node *Value
+		if n.kind == 1 {
+			node = e.scalarNodeFor(n)
+		} else {
+			node = e.treeNodeFor(n)
 		}
-		r := e.call(m, []Value{dst, e.scalarNodeFor(n)}, nil)
+		r := e.call(m, []Value{dst, node}, nil)
 		if ri, ok := r.(iface); ok && ri.t != nil {
 			return ri
 		}
